@@ -250,7 +250,7 @@ def gen_param_family(pkg, drv, trace, what, first, patches, tail, last="func rep
     body = cut(src, first, last, pkg)
     body = unsync(replace_all(body, patches, pkg), pkg)
     text = SINK + "\n" + body + tail
-    if re.search(r"(?m)^var (?!rulesCodec|descsCodec|allOps|nullJSON)\w+", text):
+    if re.search(r"(?m)^var (?!rulesCodec|descsCodec|richRulesOctets|richDescsOctets|allOps|nullJSON)\w+", text):
         raise SyncError("%s: new package-level variable in cmd/%s: %s" % (pkg, drv, re.findall(r"(?m)^var \w+", text)))
     return HEAD % dict(drv=drv, pkg=pkg, what=what, trace=trace) + imports_for(src, text, ("os", "encoding/json", "time")) + "\n" + text
 
